@@ -30,13 +30,127 @@ def Mono : Nat → List Ev → Prop
   | _, [] => True
   | t0, e :: es => t0 ≤ e.now ∧ Mono e.now es
 
+/-! ### uniform step lemma -/
+
+/-- the pure core an event runs on the effective state -/
+def coreEv (M : Nat) (e : Ev) (st : BlockState) : Request × BlockState × HRes Bool :=
+  if e.isResp then coreResponse M e.req st else coreRequest M e.req st
+
+theorem stepEv_spec (h : Handler) (e : Ev) (hi : Lru.Inv h.cache e.now) :
+    (stepEv h e).2 = ((coreEv h.maxSize e (effective h e.key e.now)).1,
+                      (coreEv h.maxSize e (effective h e.key e.now)).2.2) ∧
+    (stepEv h e).1.maxSize = h.maxSize ∧ (stepEv h e).1.cache.ttl = h.cache.ttl ∧
+    Lru.Inv (stepEv h e).1.cache e.now ∧
+    (∀ now', e.now ≤ now' → Lru.peek (stepEv h e).1.cache e.key now' =
+        if now' ≤ e.now + h.cache.ttl then
+          some (coreEv h.maxSize e (effective h e.key e.now)).2.1 else none) ∧
+    (∀ k' now', k' ≠ e.key → e.now ≤ now' →
+        Lru.peek (stepEv h e).1.cache k' now' = Lru.peek h.cache k' now') ∧
+    (∀ x ∈ (stepEv h e).1.cache.entries, e.now ≤ x.2.2 + h.cache.ttl) := by
+  cases hr : e.isResp with
+  | true =>
+    have H := interceptResponse_eq h e.now e.req hi
+    simp only [stepEv, coreEv, Ev.key, hr, if_true] at H ⊢
+    obtain ⟨a, b, c, d, f, g, i, j⟩ := H
+    exact ⟨by rw [a, b], c, d, f, g, i, j⟩
+  | false =>
+    have H := interceptRequest_eq h e.now e.req hi
+    simp only [stepEv, coreEv, Ev.key, hr] at H ⊢
+    obtain ⟨a, b, c, d, f, g, i, j⟩ := H
+    exact ⟨by simp [a, b], c, d, f, g, i, j⟩
+
+theorem runEvs_cons (h : Handler) (e : Ev) (es : List Ev) :
+    runEvs h (e :: es) = (e.key, (stepEv h e).2) :: runEvs (stepEv h e).1 es := rfl
+
+theorem nonint_gen (κ : Key) : ∀ (evs : List Ev) (t : Nat) (h₁ h₂ : Handler),
+    h₁.maxSize = h₂.maxSize → h₁.cache.ttl = h₂.cache.ttl →
+    Lru.Inv h₁.cache t → Lru.Inv h₂.cache t →
+    (∀ now', t ≤ now' → Lru.peek h₁.cache κ now' = Lru.peek h₂.cache κ now') →
+    Mono t evs →
+    (runEvs h₁ evs).filter (fun o => o.1 = κ) =
+      runEvs h₂ (evs.filter (fun e => e.key = κ)) := by
+  intro evs
+  induction evs with
+  | nil => intros; rfl
+  | cons e es ih =>
+    intro t h₁ h₂ hM httl hi₁ hi₂ hp hm
+    obtain ⟨hte, hm'⟩ := hm
+    have hi₁' := Lru.inv_mono _ _ _ hi₁ hte
+    have hi₂' := Lru.inv_mono _ _ _ hi₂ hte
+    obtain ⟨o₁, M₁, T₁, I₁, P₁, Q₁, _⟩ := stepEv_spec h₁ e hi₁'
+    by_cases hk : e.key = κ
+    · obtain ⟨o₂, M₂, T₂, I₂, P₂, Q₂, _⟩ := stepEv_spec h₂ e hi₂'
+      have heff : effective h₁ e.key e.now = effective h₂ e.key e.now := by
+        unfold effective; rw [hk, hp _ hte]
+      rw [runEvs_cons, List.filter_cons_of_pos (by simpa using hk),
+        List.filter_cons_of_pos (by simpa using hk), runEvs_cons]
+      congr 1
+      · rw [o₁, o₂, heff, hM]
+      · apply ih e.now
+        · rw [M₁, M₂, hM]
+        · rw [T₁, T₂, httl]
+        · exact I₁
+        · exact I₂
+        · intro now' hn
+          rw [← hk, P₁ _ hn, P₂ _ hn, heff, hM, httl]
+        · exact hm'
+    · rw [runEvs_cons, List.filter_cons_of_neg (by simpa using hk),
+        List.filter_cons_of_neg (by simpa using hk)]
+      apply ih e.now
+      · rw [M₁, hM]
+      · rw [T₁, httl]
+      · exact I₁
+      · exact hi₂'
+      · intro now' hn
+        rw [Q₁ κ now' (fun h => hk h.symm) hn]
+        exact hp _ (Nat.le_trans hte hn)
+      · exact hm'
+
 /-- Non-interference: in every history (every interleaving, every monotone
 timestamping) the calls for key `κ` observe exactly what they observe when all
 calls for other keys are removed from the history. -/
 theorem noninterference (M ttl : Nat) (evs : List Ev) (κ : Key) (hm : Mono 0 evs) :
     (runEvs (Handler.new M ttl) evs).filter (fun o => o.1 = κ) =
-      runEvs (Handler.new M ttl) (evs.filter (fun e => e.key = κ)) := by
-  sorry
+      runEvs (Handler.new M ttl) (evs.filter (fun e => e.key = κ)) :=
+  nonint_gen κ evs 0 _ _ rfl rfl (Lru.inv_empty _ _) (Lru.inv_empty _ _) (fun _ _ => rfl) hm
+
+/-! ### reachable states -/
+
+theorem reach_gen : ∀ (evs : List Ev) (t0 : Nat) (h0 : Handler),
+    Lru.Inv h0.cache t0 → Mono t0 evs →
+    (∀ x ∈ h0.cache.entries, t0 ≤ x.2.2 + h0.cache.ttl) →
+    let h := evs.foldl (fun h e => (stepEv h e).1) h0
+    h.maxSize = h0.maxSize ∧ h.cache.ttl = h0.cache.ttl ∧
+    (∀ t, t0 ≤ t → (∀ e ∈ evs, e.now ≤ t) → Lru.Inv h.cache t) ∧
+    (∀ last, evs.getLast? = some last →
+      ∀ x ∈ h.cache.entries, last.now ≤ x.2.2 + h0.cache.ttl) := by
+  intro evs
+  induction evs with
+  | nil =>
+    intro t0 h0 hi _ _
+    refine ⟨rfl, rfl, fun t ht _ => Lru.inv_mono _ _ _ hi ht, ?_⟩
+    intro last hl; simp at hl
+  | cons e es ih =>
+    intro t0 h0 hi hm hx
+    obtain ⟨hte, hm'⟩ := hm
+    have hi' := Lru.inv_mono _ _ _ hi hte
+    obtain ⟨_, M₁, T₁, I₁, _, _, R₁⟩ := stepEv_spec h0 e hi'
+    have IH := ih e.now (stepEv h0 e).1 I₁ hm' (by rw [T₁]; exact R₁)
+    simp only [List.foldl_cons] at IH ⊢
+    obtain ⟨a, b, c, d⟩ := IH
+    refine ⟨by rw [a, M₁], by rw [b, T₁], ?_, ?_⟩
+    · intro t _ hall
+      exact c t (hall e (List.mem_cons_self ..)) (fun e' he' => hall e' (List.mem_cons_of_mem _ he'))
+    · intro last hl
+      cases es with
+      | nil =>
+        simp at hl
+        subst hl
+        simpa using R₁
+      | cons e2 es2 =>
+        rw [List.getLast?_cons_cons] at hl
+        rw [← T₁]
+        exact d last hl
 
 /-- the handler state reachable by any monotone history satisfies the cache
 invariant and holds no entry that has expired by the time of the last call -/
@@ -45,7 +159,34 @@ theorem reachable_inv (M ttl : Nat) (evs : List Ev) (hm : Mono 0 evs) (h : Handl
     h.maxSize = M ∧ h.cache.ttl = ttl ∧
     (∀ t, (∀ e ∈ evs, e.now ≤ t) → Lru.Inv h.cache t) ∧
     (∀ last, evs.getLast? = some last → ∀ e ∈ h.cache.entries, last.now ≤ e.2.2 + ttl) := by
-  sorry
+  subst hr
+  have H := reach_gen evs 0 (Handler.new M ttl) (Lru.inv_empty _ _) hm
+    (by intro x hx; simp [Handler.new, Lru.empty] at hx)
+  obtain ⟨a, b, c, d⟩ := H
+  exact ⟨a, b, fun t ht => c t (Nat.zero_le _) ht, d⟩
+
+/-! ### retention and expiry -/
+
+theorem retain_gen (κ : Key) : ∀ (others : List Ev) (t0 : Nat) (h0 : Handler),
+    Lru.Inv h0.cache t0 → Mono t0 others → (∀ o ∈ others, o.key ≠ κ) →
+    let h := others.foldl (fun h o => (stepEv h o).1) h0
+    ∀ t', t0 ≤ t' → (∀ o ∈ others, o.now ≤ t') →
+      Lru.peek h.cache κ t' = Lru.peek h0.cache κ t' := by
+  intro others
+  induction others with
+  | nil => intro t0 h0 _ _ _ h t' _ _; rfl
+  | cons o os ih =>
+    intro t0 h0 hi hm hk
+    obtain ⟨hte, hm'⟩ := hm
+    have hi' := Lru.inv_mono _ _ _ hi hte
+    obtain ⟨_, _, _, I₁, _, Q₁, _⟩ := stepEv_spec h0 o hi'
+    intro h t' ht' hall
+    have hot : o.now ≤ t' := hall o (List.mem_cons_self ..)
+    have IH := ih o.now (stepEv h0 o).1 I₁ hm' (fun o' ho' => hk o' (List.mem_cons_of_mem _ ho'))
+      t' hot (fun o' ho' => hall o' (List.mem_cons_of_mem _ ho'))
+    show Lru.peek (List.foldl _ (stepEv h0 o).1 os).cache κ t' = _
+    rw [IH]
+    exact Q₁ κ t' (fun hh => hk o (List.mem_cons_self ..) hh.symm) hot
 
 /-- Retention (C20): the state left for key `κ` by a call at time `t` is what
 the next call for `κ` at time `t' ≤ t + ttl` works on – whatever calls for other
@@ -60,6 +201,14 @@ theorem retention_and_expiry (h : Handler) (t : Nat) (e : Ev) (others : List Ev)
                 else coreRequest h.maxSize e.req (effective h e.key e.now)).2.1
     let h2 := others.foldl (fun h o => (stepEv h o).1) h1
     effective h2 e.key t' = if t' ≤ e.now + h.cache.ttl then st1 else BlockState.default := by
-  sorry
+  intro h1 st1 h2
+  have hi' := Lru.inv_mono _ _ _ hi ht
+  obtain ⟨_, _, _, I₁, P₁, _, _⟩ := stepEv_spec h e hi'
+  have H := retain_gen e.key others e.now h1 I₁ hm hk t' hle hlast
+  show (Lru.peek h2.cache e.key t').getD BlockState.default = _
+  rw [show Lru.peek h2.cache e.key t' = _ from H, P₁ t' hle]
+  by_cases hc : t' ≤ e.now + h.cache.ttl
+  · simp only [hc, if_true, Option.getD_some]; rfl
+  · simp only [hc, if_false, Option.getD_none]
 
 end CoapLite.Block
